@@ -90,6 +90,7 @@ class KFModel:
                 ops.append(["exit", i])
                 ops.append(["exitx", i])      # the block is left through an exception
             ops.append(["encrypt", i])
+            ops.append(["encrypt0", i])       # the empty plaintext is a plaintext like any other: only inside an open context
             ops.append(["generate", i])       # the public request for a new key file: replaces the file, never the session's key
             for s in self.store:
                 ops.append(["decrypt", i, s])
@@ -138,6 +139,8 @@ class KFModel:
             self.file = "G%d" % self.gen
             self.prune()
             return ("ok", None)
+        if name == "encrypt0":
+            return ("raise", "not-open") if o[0] == 0 else ("ok", None)
         if name == "encrypt":
             if o[0] == 0:
                 return ("raise", "not-open")
@@ -243,6 +246,9 @@ class World:
             if name == "generate":
                 r = o.generate_key()
                 return ("ok", None) if r is None else ("raise", AssertionError("generate_key returned %r" % (r,)))
+            if name == "encrypt0":
+                sv = o.encrypt(b"", method="xor")
+                return ("ok", None) if getattr(sv, "ciphertext", None) == b"" and getattr(sv, "method", None) == "xor" else ("raise", AssertionError("odd value %r" % (sv,)))
             if name == "encrypt":
                 sv = o.encrypt(PLAIN, method="xor")
                 return ("ok", sv)
